@@ -53,6 +53,12 @@ type SeenSleepCommand struct {
 	Key      SleepCommandKey
 	SeenAt   time.Time
 	SeenFrom identity.AgentID
+
+	// KeepUntil is the end of the command's own validity window (command
+	// timestamp + TimestampWindow). While it has not passed, a replay of the
+	// command would still pass verification, so the entry must not be dropped.
+	// Zero when command signing is not configured.
+	KeepUntil time.Time
 }
 
 // FloodConfig contains configuration for the flood protocol.
@@ -883,21 +889,26 @@ func (f *Flooder) cleanupNodeInfoCache(now time.Time, expiry time.Duration) {
 }
 
 // cleanupSleepCmdCache removes expired entries from the sleep command cache.
+// An entry is never removed while the command it stands for is still inside
+// its validity window: it is the only thing that stops a replay.
 // Must be called with f.sleepCmdMu held.
 func (f *Flooder) cleanupSleepCmdCache(now time.Time, expiry time.Duration) {
 	for key, entry := range f.sleepCmdSeenCache {
-		if now.Sub(entry.SeenAt) > expiry {
+		if now.Sub(entry.SeenAt) > expiry && now.After(entry.KeepUntil) {
 			delete(f.sleepCmdSeenCache, key)
 		}
 	}
 
-	// If still too large, remove oldest entries
+	// If still too large, remove entries whose command can no longer be replayed
 	excess := len(f.sleepCmdSeenCache) - f.cfg.MaxSeenCacheSize
 	if excess <= 0 {
 		return
 	}
 	removed := 0
-	for key := range f.sleepCmdSeenCache {
+	for key, entry := range f.sleepCmdSeenCache {
+		if !now.After(entry.KeepUntil) {
+			continue
+		}
 		delete(f.sleepCmdSeenCache, key)
 		removed++
 		if removed >= excess {
@@ -1199,10 +1210,17 @@ func (f *Flooder) NodeInfoSeenCacheSize() int {
 
 // markSleepCmdSeen checks if a sleep/wake command has been seen and marks it as seen.
 // Returns true if this is a new command.
-func (f *Flooder) markSleepCmdSeen(originAgent identity.AgentID, commandID uint64, fromPeer identity.AgentID) bool {
+// When signing is configured it must only be called for commands that passed
+// verification: their timestamp bounds how long the entry has to be kept.
+func (f *Flooder) markSleepCmdSeen(originAgent identity.AgentID, commandID uint64, timestamp uint64, fromPeer identity.AgentID) bool {
 	key := SleepCommandKey{
 		OriginAgent: originAgent,
 		CommandID:   commandID,
+	}
+
+	var keepUntil time.Time
+	if f.signingPubKey != nil {
+		keepUntil = time.Unix(int64(timestamp), 0).Add(f.timestampWindow)
 	}
 
 	f.sleepCmdMu.Lock()
@@ -1216,9 +1234,10 @@ func (f *Flooder) markSleepCmdSeen(originAgent identity.AgentID, commandID uint6
 	}
 
 	f.sleepCmdSeenCache[key] = &SeenSleepCommand{
-		Key:      key,
-		SeenAt:   time.Now(),
-		SeenFrom: fromPeer,
+		Key:       key,
+		SeenAt:    time.Now(),
+		SeenFrom:  fromPeer,
+		KeepUntil: keepUntil,
 	}
 	return true
 }
@@ -1226,21 +1245,22 @@ func (f *Flooder) markSleepCmdSeen(originAgent identity.AgentID, commandID uint6
 // HandleSleepCommand processes an incoming SLEEP_COMMAND frame.
 // Returns true if the command was new and should be processed.
 func (f *Flooder) HandleSleepCommand(fromPeer identity.AgentID, cmd *protocol.SleepCommand) bool {
-	if !f.markSleepCmdSeen(cmd.OriginAgent, cmd.CommandID, fromPeer) {
-		return false
-	}
-
-	if containsAgent(cmd.SeenBy, f.localID) {
-		return false
-	}
-
-	// Verify signature if signing key is configured
+	// Verify signature if signing key is configured. This comes before the
+	// seen cache: only verified commands may occupy (and be protected by) it.
 	if err := f.verifySleepCommand(cmd); err != nil {
 		f.logger.Warn("sleep command rejected",
 			"origin", cmd.OriginAgent.ShortString(),
 			"command_id", cmd.CommandID,
 			"from_peer", fromPeer.ShortString(),
 			logging.KeyError, err)
+		return false
+	}
+
+	if !f.markSleepCmdSeen(cmd.OriginAgent, cmd.CommandID, cmd.Timestamp, fromPeer) {
+		return false
+	}
+
+	if containsAgent(cmd.SeenBy, f.localID) {
 		return false
 	}
 
@@ -1259,21 +1279,22 @@ func (f *Flooder) HandleSleepCommand(fromPeer identity.AgentID, cmd *protocol.Sl
 // HandleWakeCommand processes an incoming WAKE_COMMAND frame.
 // Returns true if the command was new and should be processed.
 func (f *Flooder) HandleWakeCommand(fromPeer identity.AgentID, cmd *protocol.WakeCommand) bool {
-	if !f.markSleepCmdSeen(cmd.OriginAgent, cmd.CommandID, fromPeer) {
-		return false
-	}
-
-	if containsAgent(cmd.SeenBy, f.localID) {
-		return false
-	}
-
-	// Verify signature if signing key is configured
+	// Verify signature if signing key is configured. This comes before the
+	// seen cache: only verified commands may occupy (and be protected by) it.
 	if err := f.verifyWakeCommand(cmd); err != nil {
 		f.logger.Warn("wake command rejected",
 			"origin", cmd.OriginAgent.ShortString(),
 			"command_id", cmd.CommandID,
 			"from_peer", fromPeer.ShortString(),
 			logging.KeyError, err)
+		return false
+	}
+
+	if !f.markSleepCmdSeen(cmd.OriginAgent, cmd.CommandID, cmd.Timestamp, fromPeer) {
+		return false
+	}
+
+	if containsAgent(cmd.SeenBy, f.localID) {
 		return false
 	}
 
@@ -1358,7 +1379,7 @@ func (f *Flooder) verifyWakeCommand(cmd *protocol.WakeCommand) error {
 // This is used to initiate mesh-wide sleep from this agent.
 // The command should already be signed if signing is required.
 func (f *Flooder) FloodSleepCommand(cmd *protocol.SleepCommand) error {
-	f.markSleepCmdSeen(cmd.OriginAgent, cmd.CommandID, f.localID)
+	f.markSleepCmdSeen(cmd.OriginAgent, cmd.CommandID, cmd.Timestamp, f.localID)
 
 	cmdWithSeen := &protocol.SleepCommand{
 		OriginAgent: cmd.OriginAgent,
@@ -1382,7 +1403,7 @@ func (f *Flooder) FloodSleepCommand(cmd *protocol.SleepCommand) error {
 // This is used to initiate mesh-wide wake from this agent.
 // The command should already be signed if signing is required.
 func (f *Flooder) FloodWakeCommand(cmd *protocol.WakeCommand) error {
-	f.markSleepCmdSeen(cmd.OriginAgent, cmd.CommandID, f.localID)
+	f.markSleepCmdSeen(cmd.OriginAgent, cmd.CommandID, cmd.Timestamp, f.localID)
 
 	// Store pending wake command for forwarding to new peers
 	f.storePendingWake(cmd)
